@@ -566,6 +566,10 @@ func cmdCheck(id, tier string) int {
 		},
 		"assumptions": p.Assume,
 	}
+	if len(agg.Samples) == 0 && exit == 0 {
+		fmt.Fprintln(os.Stderr, "vdriver: workers returned no sample cases")
+		exit = 2
+	}
 	if distinct < 2 && exit == 0 {
 		fmt.Fprintf(os.Stderr, "vdriver: only %d distinct non-trivial executions; refusing to call that evidence\n", distinct)
 		exit = 2
